@@ -118,6 +118,16 @@ def runEffs : List Eff → RState → RState × Bool
     | none => (st, true)
     | some st' => runEffs es st'
 
+/-- whether a statement raises does not depend on the response state -/
+def effFails : Eff → Bool
+  | .setStatus a => (statusSet a).isNone
+  | .setHeader _ v => !hvalOk v
+  | .addHeader _ v => !hvalOk v
+  | .setBadHeader _ => false
+  | .setCookie _ _ => false
+
+def effsFail (l : List Eff) : Bool := l.any effFails
+
 /-- `HTTPResponse.apply(response)` -/
 def apply (r : RState) (st : RState) : RState :=
   { code := r.code, line := r.line, headers := r.headers,
@@ -508,13 +518,19 @@ def closeEvents : Option Nat → List Event
 
 def isBodyless (code : Nat) : Bool := Gen.bodylessStatuses.contains code
 
+/-- `start_response('500 INTERNAL SERVER ERROR', [('Content-Type', …)], sys.exc_info())` -/
+def critStart : Event :=
+  .startResponse "500 INTERNAL SERVER ERROR".toList
+    [("Content-Type".toList, "text/html; charset=UTF-8".toList)] true
+
+/-- `'<h1>Critical error while processing request: %s</h1>' % html_escape(PATH_INFO)` -/
+def critPage (path : Str) : Bytes :=
+  utf8 ("<h1>Critical error while processing request: ".toList ++ htmlEscape path ++ "</h1>".toList)
+
 /-- the catch-all `except Exception` branch of `wsgi` (catchall = True, debug = False) -/
 def catchAll (ev : List Event) (closer : Option Nat) (isHead : Bool) (path : Str) (s : Slots) : Result :=
-  let page := "<h1>Critical error while processing request: ".toList ++ htmlEscape path ++ "</h1>".toList
-  { events := ev ++ closeEvents closer ++
-      [.stderr, .startResponse "500 INTERNAL SERVER ERROR".toList
-        [("Content-Type".toList, "text/html; charset=UTF-8".toList)] true],
-    body := if isHead then [] else [.chunk (utf8 page)], closer := none, fwCL := none, slots := s }
+  { events := ev ++ closeEvents closer ++ [.stderr, critStart],
+    body := if isHead then [] else [.chunk (critPage path)], closer := none, fwCL := none, slots := s }
 
 /-- `Ombott.wsgi(environ, start_response)` -/
 def wsgi (app : App) (s : Slots) (r : Req) : Result :=
